@@ -2,6 +2,7 @@ import SeqVerif.Model.PatternTop
 import SeqVerif.Model.PatternRange
 import SeqVerif.Model.PatternProvider
 import SeqVerif.Model.PatternSpec
+import SeqVerif.Model.PatternSpecTree
 import SeqVerif.Extracted.C13
 /-!
 # C13 - token matching equals glob / range semantics, with or without dictionary narrowing
@@ -206,6 +207,69 @@ theorem c13_specTids_mem (l : SV.Spec.Leaf) (base : Nat) (dict : List Bytes) (ti
   constructor
   · rintro ⟨⟨a, b⟩, c⟩; exact ⟨a, b, c⟩
   · rintro ⟨a, b, c⟩; exact ⟨⟨a, b⟩, c⟩
+
+/-! ### the oracle-parametric Spec (`Spec/StoreNum.lean`, C02's `c02_search_eq_specWith`): no agreement hypothesis -/
+
+/-- the range searcher is the Spec leaf under the ParseFloat reading, for every range and token (only the bound on
+finite float keys is assumed: unbounded ends are `±MaxFloat64` inclusive in the code) -/
+theorem c13_range_eq_spec_leafWith (pf : Bytes → Option Int) (maxKey : Int)
+    (hb : ∀ b x, pf b = some x → -maxKey ≤ x ∧ x ≤ maxKey) (field : Bytes) (r : Range) (v : Bytes) :
+    rangeCheck pf maxKey r v = (specLeaf field (.range r)).valMatchWith pf v :=
+  rangeCheck_eq_specWith pf maxKey hb field r v
+
+/-- TID level: all four search paths return the TIDs whose token satisfies `valMatchWith pf` -/
+theorem c13_search_eq_spec_tidsWith (pf : Bytes → Option Int) (maxKey : Int) (field : Bytes) (token : Token) (base : Nat)
+    (hok : SpecOKWith pf maxKey token) :
+    (∀ dict, search pf maxKey token ⟨base, dict, false⟩ = some (specTidsWith pf (specLeaf field token) base dict)) ∧
+    (∀ dict, dict.Pairwise bLt →
+      search pf maxKey token ⟨base, dict, true⟩ = some (specTidsWith pf (specLeaf field token) base dict)) ∧
+    (∀ blocks, BlocksOK blocks →
+      sealedSearch pf maxKey token base blocks = some (specTidsWith pf (specLeaf field token) base blocks.flatten)) ∧
+    (∀ entries : List (Nat × Bytes), activeFind pf maxKey token entries =
+        some ((entries.filter fun e => (specLeaf field token).valMatchWith pf e.2).map (·.1))) :=
+  ⟨fun dict => search_eq_specWith pf maxKey field token base dict hok,
+   fun dict hs => ordered_search_eq_specWith pf maxKey field token base dict hs hok,
+   fun blocks ok => sealed_eq_specWith pf maxKey field token base blocks ok hok,
+   fun entries => active_eq_specWith pf maxKey field token entries hok⟩
+
+/-- **C13 ∘ C02.**  For an index `idx` of C02's model, the field's dictionary is `fieldDict idx field` (the field's
+entries in index order, TID `base + i` = entry `i`).  On each of the four search paths the entries at the returned
+TIDs are, syntactically, `EvalTree.leafTokensWith pf idx (specLeaf field token)` - the token set C02's
+`c02_search_eq_specWith` starts from.  Hypothesis: `SpecOKWith` only (parsers' well-formedness for literal/wildcard
+tokens, bounded float keys for ranges). -/
+theorem c13_search_eq_spec_leafWith (pf : Bytes → Option Int) (maxKey : Int) (idx : SV.EvalTree.Index) (field : Bytes)
+    (token : Token) (base : Nat) (hok : SpecOKWith pf maxKey token) :
+    (∃ tids, search pf maxKey token ⟨base, fieldDict idx field, false⟩ = some tids ∧
+      pick idx field base tids = SV.EvalTree.leafTokensWith pf idx (specLeaf field token)) ∧
+    ((fieldDict idx field).Pairwise bLt →
+      ∃ tids, search pf maxKey token ⟨base, fieldDict idx field, true⟩ = some tids ∧
+        pick idx field base tids = SV.EvalTree.leafTokensWith pf idx (specLeaf field token)) ∧
+    (∀ blocks, BlocksOK blocks → blocks.flatten = fieldDict idx field →
+      ∃ tids, sealedSearch pf maxKey token base blocks = some tids ∧
+        pick idx field base tids = SV.EvalTree.leafTokensWith pf idx (specLeaf field token)) ∧
+    (∀ entries : List (Nat × Bytes), entries.map (·.2) = fieldDict idx field →
+      ∃ ps, search pf maxKey token ⟨1, fieldDict idx field, false⟩ = some ps ∧
+        activeFind pf maxKey token entries = some (ps.map fun p => (entries.getD (p - 1) (0, [])).1) ∧
+        pick idx field 1 ps = SV.EvalTree.leafTokensWith pf idx (specLeaf field token)) := by
+  refine ⟨⟨_, search_eq_specWith pf maxKey field token base _ hok, pick_specTidsWith pf idx field token base⟩,
+    fun hs => ⟨_, ordered_search_eq_specWith pf maxKey field token base _ hs hok, pick_specTidsWith pf idx field token base⟩,
+    fun blocks ok hfl => ⟨_, by rw [← hfl]; exact sealed_eq_specWith pf maxKey field token base blocks ok hok,
+      pick_specTidsWith pf idx field token base⟩,
+    fun entries he => ⟨_, search_eq_specWith pf maxKey field token 1 _ hok, ?_, pick_specTidsWith pf idx field token 1⟩⟩
+  simp only [activeFind, he, search_eq_specWith pf maxKey field token 1 _ hok, Option.map_some]
+
+/-- the fixed Spec (`valMatch`, reading `numVal`) is recovered from the parametric one where the two readings agree:
+under `NumAgree` on the range ends and the dictionary, `valMatchWith pf` and `valMatch` select the same TIDs
+(`c13_search_eq_spec_leaf` above is this corollary; `specTidsWith numVal = specTids` holds by definition) -/
+theorem c13_spec_leafWith_agrees (pf : Bytes → Option Int) (maxKey : Int) (field : Bytes) (token : Token) (base : Nat)
+    (dict : List Bytes) (hok : SpecOK pf maxKey token dict) (hokw : SpecOKWith pf maxKey token) :
+    specTidsWith pf (specLeaf field token) base dict = specTids (specLeaf field token) base dict ∧
+    specTidsWith SV.Spec.numVal (specLeaf field token) base dict = specTids (specLeaf field token) base dict := by
+  refine ⟨?_, specTidsWith_numVal _ base dict⟩
+  have h1 := search_eq_specWith pf maxKey field token base dict hokw
+  have h2 := search_eq_spec pf maxKey field token base dict hok
+  rw [h1] at h2
+  exact Option.some.inj h2
 
 /-! ### where the Spec's `numVal` (decimal integers) and the code's `ParseFloat` genuinely differ
 (each `pf` below is a table of what `strconv.ParseFloat` answers, as order keys) -/
